@@ -30,3 +30,24 @@ Proof. repeat split; reflexivity. Qed.
 (** (close-file-descriptor fileno) clears the open flag of the fileno object (History.v OCloseFd = finalize_fileno) *)
 Lemma close_fd_as_modelled_l : close_fd_marks_fileno_closed = 1.
 Proof. reflexivity. Qed.
+
+(** round 3.  sexp_finalize_fileno, sexp_finalize_port (the fileno's count is decremented once per closed port and
+    sexp_finalize_fileno runs exactly when it reaches 0: the port's shutdown flag only guards the calls of shutdown(2), which
+    release nothing), the heap walk of sexp_finalize and the reset walk of sexp_reset_weak_references read as Model.v's
+    finalize_fileno / finalize_port / finalize / weak_reset mirror them *)
+Lemma finaliser_skeletons_as_modelled_l :
+  finalize_fileno_as_modelled = 1 /\ finalize_port_as_modelled = 1 /\ finalize_walk_as_modelled = 1 /\
+  weak_reset_walk_as_modelled = 1.
+Proof. repeat split; reflexivity. Qed.
+
+(** the gate of the weak pass (Gate.v): SEXP_G_WEAK_OBJECTS_PRESENT is mentioned in exactly four places — false at context
+    creation, set by sexp_make_ephemeron_op, tested at the top of the weak pass, declared —; sexp_make_ephemeron_op sets it
+    unconditionally (whatever key and value are) and is the only allocator of the only weak type *)
+Lemma weak_gate_as_modelled_l :
+  weak_gate_sites = [1; 2; 3; 4] /\ make_ephemeron_sets_gate = 1 /\ ephemeron_alloc_sites = 1.
+Proof. repeat split; reflexivity. Qed.
+
+(** open-input-file / open-output-file: a failed fopen is retried once, after a collection, exactly when errno is EMFILE
+    directly after the failed fopen (nothing — in particular no finaliser — runs between the fopen and the test) *)
+Lemma open_retry_as_modelled_l : open_retry_as_modelled = [1; 1; 1].
+Proof. reflexivity. Qed.
